@@ -46,6 +46,10 @@ def run_family(ctx: Ctx, own: str, n_quick: int, n_thorough: int, extra: List[di
     msgs = [wf.gen_message(rng, big=(k % 4 == 0)) for k in range(n)] + list(extra)
     jobs = [(m.get('_id') or '%s-%d' % (own.lower(), k), m) for k, m in enumerate(msgs)]
     if len(jobs) >= 64:
+        # (the library and what it loads -- ifaddr, ctypes -- are imported before the workers are forked: a worker of a parent that holds
+        # hundreds of thousands of messages could not always map a shared object of its own)
+        import zeroconf  # noqa: F401
+        import ctypes  # noqa: F401
         with mp.get_context('fork').Pool(16 if ctx.thorough else 8) as pool:
             cases = pool.map(_case, jobs, chunksize=8)
     else:
